@@ -246,6 +246,14 @@ func genRestart(prop string, seed uint64, tier string) *Scenario {
 		}
 		body.Phases = append(body.Phases, ph)
 	}
+	// drawn from generators of their own: keys with one holder that takes further levels and gives some
+	// back, and keys whose holder lengthens its term once; their terms outlast every outage of the run
+	if re := ssched.Sub(seed, "reentry"); re.Intn(3) == 0 {
+		body.Phases[0].Clients = append(body.Phases[0].Clients, genReentryClient(re, 4000))
+	}
+	if rn := ssched.Sub(seed, "renewal"); rn.Intn(3) == 0 {
+		body.Phases[0].Clients = append(body.Phases[0].Clients, genRenewalClient(rn, 4000))
+	}
 	raw, _ := json.Marshal(body)
 	k := genKnobs(r)
 	k.AofFileBufferSize = []uint{64, 128, 256, 1024, 4096}[r.Intn(5)]
@@ -392,6 +400,50 @@ func sortedCanonKeys(m map[string]*CanonKey) []string {
 // admission; for such keys the recovered depth, terms or even presence of a hold can differ
 // (finding F22). They are compared too, but their differences are reported under their own
 // classes.
+// keys of the renewal client (genRenewalClient)
+const renewalKeyLo, renewalKeyHi = 120, 130
+
+// genRenewalClient: keys that one LockId takes (persisted at once, a term of minutes) and, a second or
+// more later, renews with the update flag to a longer term; nothing else ever touches them.
+func genRenewalClient(vs *ssched.Rand, minTerm int) ClientSpec {
+	var ops []OpSpec
+	n := 1 + vs.Intn(3)
+	e1 := make([]uint16, n)
+	for i := 0; i < n; i++ {
+		e1[i] = uint16(minTerm + vs.Intn(200))
+		ops = append(ops, OpSpec{Cmd: 1, Key: renewalKeyLo + i, Lid: 1, Expried: e1[i], EFlag: efAof0, Count: 0, DelayMs: vs.Intn(50), Wait: true})
+	}
+	for i := 0; i < n; i++ {
+		d := vs.Intn(300)
+		if i == 0 {
+			d = 1200 + vs.Intn(1500)
+		}
+		ops = append(ops, OpSpec{Cmd: 1, Key: renewalKeyLo + i, Lid: 1, Flag: protocol.LOCK_FLAG_UPDATE_WHEN_LOCKED, Expried: e1[i] + uint16(300+vs.Intn(3000)), EFlag: efAof0, Count: 0, DelayMs: d, Wait: true})
+	}
+	return ClientSpec{Kind: "mem", StartMs: 30 + vs.Intn(300), Ops: ops}
+}
+
+// keys of the re-entry client (genReentryClient)
+const reentryKeyLo, reentryKeyHi = 130, 140
+
+// genReentryClient: keys that one LockId takes with a term of minutes, locks again one to three times
+// (same terms, Rcount allows it) and gives one or two levels back; nothing else touches them.
+func genReentryClient(vs *ssched.Rand, minTerm int) ClientSpec {
+	var ops []OpSpec
+	n := 1 + vs.Intn(3)
+	for i := 0; i < n; i++ {
+		ex := uint16(minTerm + vs.Intn(400))
+		up := 1 + vs.Intn(3)
+		for l := 0; l <= up; l++ {
+			ops = append(ops, OpSpec{Cmd: 1, Key: reentryKeyLo + i, Lid: 1, Expried: ex, EFlag: efAof0, Count: 0, Rcount: 5, DelayMs: vs.Intn(400), Wait: true})
+		}
+		for l, down := 0, vs.Intn(up+1); l < down; l++ {
+			ops = append(ops, OpSpec{Cmd: 2, Key: reentryKeyLo + i, Lid: 1, Rcount: 1, DelayMs: vs.Intn(600), Wait: true})
+		}
+	}
+	return ClientSpec{Kind: "mem", StartMs: 30 + vs.Intn(300), Ops: ops}
+}
+
 func (rr *restartRun) taintedKeys() map[string]bool {
 	t := map[string]bool{}
 	counts := map[string]map[uint16]bool{}
@@ -414,6 +466,16 @@ func (rr *restartRun) taintedKeys() map[string]bool {
 		}
 		upd := r.Op.Flag&protocol.LOCK_FLAG_UPDATE_WHEN_LOCKED != 0
 		if (rep.Result == protocol.RESULT_SUCCED && rep.LRCount >= 2) || (upd && (rep.Result == protocol.RESULT_LOCKED_ERROR || rep.Result == protocol.RESULT_SUCCED)) {
+			if !upd && r.Op.Key >= reentryKeyLo && r.Op.Key < reentryKeyHi {
+				// the re-entry keys: a sole holder with terms of minutes that takes further levels and gives
+				// some back, every record persisted at once and none of them near its end
+				continue
+			}
+			if upd && r.Op.Key >= renewalKeyLo && r.Op.Key < renewalKeyHi {
+				// the renewal keys: a sole holder whose only later request lengthens its expiry (nothing else
+				// changes, nothing is released): recovery has no choice to make between its records
+				continue
+			}
 			t[fmt.Sprintf("%d/%x", r.Op.Db, keyBytes(r.Op.Key))] = true
 		}
 	}
